@@ -14,6 +14,20 @@ variable (env : Env) (inp : Node → Option Val)
 
 /-! ### the spec is monotone in the depth and deterministic -/
 
+theorem calleeAt_alive {env : Env} (f : Node → Res × Bool) {n : Node} (h : env.alive n.1 = true) :
+    calleeAt env f n = f n := by simp [calleeAt, h]
+
+theorem calleeAt_dead {env : Env} (f : Node → Res × Bool) {n : Node} (h : env.alive n.1 = false) :
+    calleeAt env f n = (.err errDead, false) := by simp [calleeAt, h]
+
+theorem calleeAt_mono (f g : Node → Res × Bool)
+    (hfg : ∀ n r, f n = (r, false) → g n = (r, false)) (n : Node) (r : Res)
+    (h : calleeAt env f n = (r, false)) : calleeAt env g n = (r, false) := by
+  unfold calleeAt at h ⊢
+  split
+  · rename_i ha; rw [if_pos ha] at h; exact hfg n r h
+  · rename_i ha; rw [if_neg ha] at h; exact h
+
 theorem denoteBody_mono (f g : Node → Res × Bool)
     (hfg : ∀ n r, f n = (r, false) → g n = (r, false)) :
     ∀ (p : Prog) (r : Res), denoteBody env f p = (r, false) → denoteBody env g p = (r, false) := by
@@ -27,10 +41,10 @@ theorem denoteBody_mono (f g : Node → Res × Bool)
     intro r h
     simp only [denoteBody, Prod.mk.injEq, Bool.or_eq_false_iff] at h
     obtain ⟨h1, h2, h3⟩ := h
-    have hf : f n = ((f n).1, false) := by rw [← h2]
-    have hg := hfg n _ hf
-    have hk : denoteBody env f (k (f n).1) = (r, false) := by rw [← h1, ← h3]
-    have := ih (f n).1 r hk
+    have hf : calleeAt env f n = ((calleeAt env f n).1, false) := by rw [← h2]
+    have hg := calleeAt_mono env f g hfg n _ hf
+    have hk : denoteBody env f (k (calleeAt env f n).1) = (r, false) := by rw [← h1, ← h3]
+    have := ih (calleeAt env f n).1 r hk
     simp only [denoteBody, hg, this, Bool.or_false]
 
 theorem denoteN_mono : ∀ (d : Nat) (n : Node) (r : Res),
@@ -70,14 +84,33 @@ theorem Den_det (n : Node) (r r' : Res) (h : Den env inp n r) (h' : Den env inp 
 def DenBody (p : Prog) (r : Res) : Prop :=
   ∃ d, denoteBody env (denoteN env inp d) p = (r, false)
 
+/-- what a formula that calls `n` is answered: the denotation of `n` when the cells exists, the
+error of an unbound name when it does not -/
+def DenC (n : Node) (r : Res) : Prop :=
+  if env.alive n.1 then Den env inp n r else r = .err errDead
+
+theorem DenC_det (n : Node) (r r' : Res) (h : DenC env inp n r) (h' : DenC env inp n r') : r = r' := by
+  unfold DenC at h h'
+  by_cases ha : env.alive n.1 = true
+  · rw [if_pos ha] at h h'; exact Den_det env inp n r r' h h'
+  · rw [if_neg ha] at h h'; rw [h, h']
+
 theorem DenBody_call (n : Node) (k : Res → Prog) (rn r : Res)
-    (hn : Den env inp n rn) (hk : DenBody env inp (k rn) r) : DenBody env inp (.call n k) r := by
-  obtain ⟨d1, h1⟩ := hn; obtain ⟨d2, h2⟩ := hk
-  refine ⟨max d1 d2, ?_⟩
-  have a := denoteN_mono_le env inp (Nat.le_max_left d1 d2) n rn h1
-  have b := denoteBody_mono env (denoteN env inp d2) (denoteN env inp (max d1 d2))
-    (fun m r' hm => denoteN_mono_le env inp (Nat.le_max_right d1 d2) m r' hm) _ r h2
-  simp [denoteBody, a, b]
+    (hn : DenC env inp n rn) (hk : DenBody env inp (k rn) r) : DenBody env inp (.call n k) r := by
+  obtain ⟨d2, h2⟩ := hk
+  unfold DenC at hn
+  split at hn
+  · rename_i ha
+    obtain ⟨d1, h1⟩ := hn
+    refine ⟨max d1 d2, ?_⟩
+    have a := denoteN_mono_le env inp (Nat.le_max_left d1 d2) n rn h1
+    have b := denoteBody_mono env (denoteN env inp d2) (denoteN env inp (max d1 d2))
+      (fun m r' hm => denoteN_mono_le env inp (Nat.le_max_right d1 d2) m r' hm) _ r h2
+    simp [denoteBody, calleeAt_alive _ ha, a, b]
+  · rename_i ha
+    have ha' : env.alive n.1 = false := by simpa using ha
+    subst hn
+    exact ⟨d2, by simp [denoteBody, calleeAt_dead _ ha', h2]⟩
 
 /-! ### the invariant -/
 
@@ -93,7 +126,7 @@ theorem Good.of_sameCache {s s' : St} (h : SameCache s s') (g : Good env inp s) 
 def CalleeOK (f : Node → St → Res × St) : Prop :=
   ∀ n s, (s.hit = false → Good env inp s) →
     (s.hit = true → (f n s).2.hit = true) ∧
-    ((f n s).2.hit = false → Good env inp (f n s).2 ∧ Den env inp n (f n s).1)
+    ((f n s).2.hit = false → Good env inp (f n s).2 ∧ DenC env inp n (f n s).1)
 
 theorem hit_false_of {a b : Bool} (h : a = true → b = true) (hb : b = false) : a = false := by
   cases a <;> simp_all
@@ -152,27 +185,36 @@ theorem evalNode_ok (ef : Node → St → Res × St) (hef : EvalOK env inp ef) :
     CalleeOK env inp (evalNode env ef) := by
   intro n s hs
   unfold evalNode
-  by_cases hc : env.cached n.1 = true
-  · simp only [hc, if_true]
-    cases hl : lookup s.data n with
-    | some v =>
-      simp only []
-      have hsc := sameCache_hitEdge s n
-      refine ⟨fun h => hsc.hit ▸ h, fun h => ?_⟩
-      have h0 : s.hit = false := hsc.hit ▸ h
-      exact ⟨Good.of_sameCache env inp hsc (hs h0), (hs h0).sound n v hc hl⟩
-    | none =>
-      simp only []
-      refine keepExc_okc env inp s _ _ n (hef n s hs (fun h0 _ => ?_))
-      -- an input would be held
-      cases hi : inp n with
-      | none => rfl
+  by_cases ha : env.alive n.1 = true
+  · have hden : ∀ r, Den env inp n r → DenC env inp n r := fun r h => by unfold DenC; rw [if_pos ha]; exact h
+    simp only [ha, if_true]
+    by_cases hc : env.cached n.1 = true
+    · simp only [hc, if_true]
+      cases hl : lookup s.data n with
       | some v =>
-        have := (hs h0).inputsHeld n v hc hi
-        rw [hl] at this; cases this
-  · have hc' : env.cached n.1 = false := by simpa using hc
-    simp only [hc', Bool.false_eq_true, if_false]
-    exact keepExc_okc env inp s _ _ n (hef n s hs (fun _ h => by simp [hc'] at h))
+        simp only []
+        have hsc := sameCache_hitEdge s n
+        refine ⟨fun h => hsc.hit ▸ h, fun h => ?_⟩
+        have h0 : s.hit = false := hsc.hit ▸ h
+        exact ⟨Good.of_sameCache env inp hsc (hs h0), hden _ ((hs h0).sound n v hc hl)⟩
+      | none =>
+        simp only []
+        have := keepExc_okc env inp s _ _ n (hef n s hs (fun h0 _ => ?_))
+        · exact ⟨this.1, fun h => ⟨(this.2 h).1, hden _ (this.2 h).2⟩⟩
+        -- an input would be held
+        cases hi : inp n with
+        | none => rfl
+        | some v =>
+          have := (hs h0).inputsHeld n v hc hi
+          rw [hl] at this; cases this
+    · have hc' : env.cached n.1 = false := by simpa using hc
+      simp only [hc', Bool.false_eq_true, if_false]
+      have := keepExc_okc env inp s _ _ n (hef n s hs (fun _ h => by simp [hc'] at h))
+      exact ⟨this.1, fun h => ⟨(this.2 h).1, hden _ (this.2 h).2⟩⟩
+  · have ha' : env.alive n.1 = false := by simpa using ha
+    simp only [ha', Bool.false_eq_true, if_false]
+    refine ⟨fun h => h, fun h => ⟨Good.of_sameCache env inp (sameCache_newExc s) (hs h), ?_⟩⟩
+    unfold DenC; rw [if_neg ha]
 
 
 theorem den_of_body (n : Node) (r : Res) (hb : DenBody env inp (env.formula n) r)
@@ -276,7 +318,7 @@ theorem runN_ok : ∀ d, EvalOK env inp (runN env d) := by
 
 /-- a callee evaluator returns the spec's result whenever the spec stays within depth `d` -/
 def CompOK (d : Nat) (f : Node → St → Res × St) : Prop :=
-  ∀ n s r, Good env inp s → s.hit = false → denoteN env inp d n = (r, false) →
+  ∀ n s r, Good env inp s → s.hit = false → calleeAt env (denoteN env inp d) n = (r, false) →
     (f n s).1 = r ∧ (f n s).2.hit = false
 
 theorem runBody_complete (d : Nat) (f : Node → St → Res × St) (hf : CalleeOK env inp f)
@@ -301,7 +343,8 @@ theorem runBody_complete (d : Nat) (f : Node → St → Res × St) (hf : CalleeO
     intro s r hg h0 h
     simp only [denoteBody, Prod.mk.injEq, Bool.or_eq_false_iff] at h
     obtain ⟨h1, h2, h3⟩ := h
-    have hcal : denoteN env inp d n = ((denoteN env inp d n).1, false) := by rw [← h2]
+    have hcal : calleeAt env (denoteN env inp d) n = ((calleeAt env (denoteN env inp d) n).1, false) := by
+      rw [← h2]
     obtain ⟨hr, hh⟩ := hc n s _ hg h0 hcal
     have hg' := ((hf n s (fun _ => hg)).2 hh).1
     simp only [runBody]
@@ -314,25 +357,32 @@ theorem evalNode_complete (d : Nat) (ef : Node → St → Res × St)
     CompOK env inp d (evalNode env ef) := by
   intro n s r hg h0 hd
   unfold evalNode
-  by_cases hc : env.cached n.1 = true
-  · simp only [hc, if_true]
-    cases hl : lookup s.data n with
-    | some v =>
-      simp only []
-      have hsc := sameCache_hitEdge s n
-      refine ⟨?_, hsc.hit ▸ h0⟩
-      exact Den_det env inp n _ _ (hg.sound n v hc hl) ⟨d, hd⟩
-    | none =>
-      simp only []
+  by_cases ha : env.alive n.1 = true
+  · rw [calleeAt_alive _ ha] at hd
+    simp only [ha, if_true]
+    by_cases hc : env.cached n.1 = true
+    · simp only [hc, if_true]
+      cases hl : lookup s.data n with
+      | some v =>
+        simp only []
+        have hsc := sameCache_hitEdge s n
+        refine ⟨?_, hsc.hit ▸ h0⟩
+        exact Den_det env inp n _ _ (hg.sound n v hc hl) ⟨d, hd⟩
+      | none =>
+        simp only []
+        rw [keepExc_fst, (keepExc_excOnly s _).hit]
+        refine hef n s r hg h0 (fun _ => ?_) hd
+        cases hi : inp n with
+        | none => rfl
+        | some v => have := hg.inputsHeld n v hc hi; rw [hl] at this; cases this
+    · have hc' : env.cached n.1 = false := by simpa using hc
+      simp only [hc', Bool.false_eq_true, if_false]
       rw [keepExc_fst, (keepExc_excOnly s _).hit]
-      refine hef n s r hg h0 (fun _ => ?_) hd
-      cases hi : inp n with
-      | none => rfl
-      | some v => have := hg.inputsHeld n v hc hi; rw [hl] at this; cases this
-  · have hc' : env.cached n.1 = false := by simpa using hc
-    simp only [hc', Bool.false_eq_true, if_false]
-    rw [keepExc_fst, (keepExc_excOnly s _).hit]
-    exact hef n s r hg h0 (fun h => by simp [hc'] at h) hd
+      exact hef n s r hg h0 (fun h => by simp [hc'] at h) hd
+  · have ha' : env.alive n.1 = false := by simpa using ha
+    rw [calleeAt_dead _ ha'] at hd
+    simp only [ha', Bool.false_eq_true, if_false]
+    exact ⟨(Prod.mk.inj hd).1, by simpa [St.newExc] using h0⟩
 
 theorem runN_complete : ∀ (d : Nat) (n : Node) (s : St) (r : Res),
     Good env inp s → s.hit = false → (env.cached n.1 = true → inp n = none) →
